@@ -253,5 +253,31 @@ theorem rxMaxAlloc_le (max : Nat) : ∀ (fuel : Nat) (cs : Reader), rxMaxAlloc m
           · omega
     · omega
 
+theorem recvAllocs_bounded (max : Nat) : ∀ (fuel : Nat) (cs : Reader) (oks : List Bool),
+    ∀ n ∈ recvAllocs max fuel cs oks, 0 < n ∧ n ≤ max := by
+  intro fuel
+  induction fuel with
+  | zero => intro cs oks n hn; simp [recvAllocs] at hn
+  | succ fuel ih =>
+    intro cs oks n hn
+    unfold recvAllocs at hn
+    split at hn
+    · simp only at hn
+      split at hn
+      · exact ih _ _ n hn
+      · split at hn
+        · simp at hn
+        · split at hn
+          · split at hn
+            · simp only [List.mem_singleton] at hn; omega
+            · rcases List.mem_cons.mp hn with h | h
+              · omega
+              · exact ih _ _ n h
+            · rcases List.mem_cons.mp hn with h | h
+              · omega
+              · exact ih _ _ n h
+          · simp only [List.mem_singleton] at hn; omega
+    · simp at hn
+
 end Packets
 end Bifrost
